@@ -555,7 +555,9 @@ func runC07(cx *CheckCtx) {
 			state = paramTerm(tb, m, "state")
 		}
 		key := "netmap." + name
-		var del1, del2, put1, put2, notif *Site
+		// every kind of site may occur several times (a fast path of one entry point, a helper per family):
+		// the rules speak about "some site of the kind was executed", never about one particular site
+		var del1s, del2s, put1s, put2s, notifs []*Site
 		for _, s := range a.RealEffects() {
 			fam := ""
 			if isStore(s) {
@@ -563,32 +565,59 @@ func runC07(cx *CheckCtx) {
 			}
 			switch {
 			case s.Effect == "delete" && fam == "candidate":
-				del1 = s
+				del1s = append(del1s, s)
 			case s.Effect == "delete" && fam == "2":
-				del2 = s
+				del2s = append(del2s, s)
 			case s.Effect == "put" && fam == "candidate":
-				put1 = s
+				put1s = append(put1s, s)
 			case s.Effect == "put" && fam == "2":
-				put2 = s
+				put2s = append(put2s, s)
 			case notifyName(s) == "UpdateStateSuccess":
-				notif = s
+				notifs = append(notifs, s)
 			default:
 				cx.violated("update", key+"/"+siteConstruct(a, s), "unexpected effect on the candidate update path: "+siteDesc(a, s), s.Where(w))
 			}
 		}
-		if del1 == nil || del2 == nil || notif == nil || (name != "DeleteNode" && (put1 == nil || put2 == nil)) {
+		if len(del1s) == 0 || len(del2s) == 0 || len(notifs) == 0 || (name != "DeleteNode" && (len(put1s) == 0 || len(put2s) == 0)) {
 			cx.violated("update", key+"/shape", name+" no longer reaches the remove (both families) / rewrite (both families) / notify sites", w.pos(m.Fn.Pos()))
 			continue
 		}
+		eAny := func(ss ...[]*Site) []int32 {
+			var out []int32
+			for _, l := range ss {
+				for _, x := range l {
+					out = append(out, a.eLit(x))
+				}
+			}
+			return out
+		}
 		k1, k2 := tb.cat(tb.constBytes("candidate"), pk), tb.cat(tb.constBytes("2"), pk)
-		cx.decide(del1.Args[1] == k1 && del2.Args[1] == k2, "remove-both", key+"/keys", "deletes 'candidate'‖k and '2'‖k for the same k", "removal deletes "+del1.Args[1].pretty()+" and "+del2.Args[1].pretty(), del1.Where(w))
-		both := true
-		for _, ex := range a.Exits() {
-			if !a.holdsAt(ex.State, -a.eLit(del1), a.eLit(del2)) || !a.holdsAt(ex.State, -a.eLit(del2), a.eLit(del1)) {
-				both = false
+		okKeys, badKeys := true, ""
+		for _, d := range del1s {
+			if d.Args[1] != k1 {
+				okKeys, badKeys = false, d.Args[1].pretty()
 			}
 		}
-		cx.decide(both, "remove-both", key+"/always", "both representations are removed together", "a candidate can be removed from one list and stay in the other", del1.Where(w))
+		for _, d := range del2s {
+			if d.Args[1] != k2 {
+				okKeys, badKeys = false, d.Args[1].pretty()
+			}
+		}
+		cx.decide(okKeys, "remove-both", key+"/keys", "deletes 'candidate'‖k and '2'‖k for the same k", "removal deletes "+badKeys, del1s[0].Where(w))
+		both := true
+		for _, ex := range a.Exits() {
+			for _, d := range del1s {
+				if !a.holdsAt(ex.State, append([]int32{-a.eLit(d)}, eAny(del2s)...)...) {
+					both = false
+				}
+			}
+			for _, d := range del2s {
+				if !a.holdsAt(ex.State, append([]int32{-a.eLit(d)}, eAny(del1s)...)...) {
+					both = false
+				}
+			}
+		}
+		cx.decide(both, "remove-both", key+"/always", "both representations are removed together", "a candidate can be removed from one list and stay in the other", del1s[0].Where(w))
 		// converse: a removal is not refused because *one* representation is missing — a fault decided on a
 		// read of the candidate families looks at both of them (a node added in one format only can be removed)
 		if name == "DeleteNode" || name == "UpdateState" || name == "UpdateStateIR" {
@@ -620,28 +649,34 @@ func runC07(cx *CheckCtx) {
 			cx.decide(okBothRead, "remove-both", key+"/accepts", "no fault is decided on the presence of one representation alone", name+" can refuse a candidate because one of its two representations is missing: a node added in one format only cannot be removed (or updated) although it is a candidate", w.pos(m.Fn.Pos()))
 		}
 		if name != "DeleteNode" {
-			for i, p := range []*Site{put1, put2} {
+			for i, puts := range [][]*Site{put1s, put2s} {
 				kk := []*Term{k1, k2}[i]
 				fam := []string{"candidate", "2"}[i]
-				v := unserialize(a.canonAt(p, p.Args[2]))
-				okV := p.Args[1] == kk && tb.field(v, "State") == state && v.Op == "struct"
-				if okV {
-					names := strings.Split(v.Name[strings.Index(v.Name, ":")+1:], ",")
-					for j, fn := range names {
-						if fn == "State" {
-							continue
-						}
-						fv := v.Args[j]
-						if !(fv.Op == "field" && fv.Name == fn) {
-							okV = false
-							continue
-						}
-						if rk, isRec := recordOf(tb, fv.Args[0]); !isRec || rk != kk {
-							okV = false
+				okV, badV := true, ""
+				for _, p := range puts {
+					v := unserialize(a.canonAt(p, p.Args[2]))
+					okOne := p.Args[1] == kk && tb.field(v, "State") == state && v.Op == "struct"
+					if okOne {
+						names := strings.Split(v.Name[strings.Index(v.Name, ":")+1:], ",")
+						for j, fn := range names {
+							if fn == "State" {
+								continue
+							}
+							fv := v.Args[j]
+							if !(fv.Op == "field" && fv.Name == fn) {
+								okOne = false
+								continue
+							}
+							if rk, isRec := recordOf(tb, fv.Args[0]); !isRec || rk != kk {
+								okOne = false
+							}
 						}
 					}
+					if !okOne {
+						okV, badV = false, v.pretty()
+					}
 				}
-				cx.decide(okV, "update-both", key+"/"+fam+"/value", "rewrites the stored record with only State := requested state", "the "+fam+" record is rewritten as "+v.pretty()+": more than the state changes, or another state is stored", p.Where(w))
+				cx.decide(okV, "update-both", key+"/"+fam+"/value", "rewrites the stored record with only State := requested state", "the "+fam+" record is rewritten as "+badV+": more than the state changes, or another state is stored", puts[0].Where(w))
 				// present ⇒ rewritten, on every exit that rewrote anything or returned through the update arm
 				okP := true
 				var rd *Term
@@ -653,24 +688,27 @@ func runC07(cx *CheckCtx) {
 				if rd == nil {
 					okP = false
 				} else {
-					other := []*Site{put2, put1}[i]
+					others := [][]*Site{put2s, put1s}[i]
 					for _, ex := range a.Exits() {
 						// on update paths (some put executed or none of the deletes executed)
-						if !a.holdsAt(ex.State, a.litNil(rd), a.eLit(p), a.eLit(del1), -a.eLit(other)) && !a.holdsAt(ex.State, a.litNil(rd), a.eLit(p), a.eLit(del1)) {
-							okP = false
+						base := append([]int32{a.litNil(rd)}, eAny(puts, del1s)...)
+						for _, o := range others {
+							if !a.holdsAt(ex.State, append(append([]int32{}, base...), -a.eLit(o))...) {
+								okP = false
+							}
 						}
 					}
 				}
-				cx.decide(okP, "update-both", key+"/"+fam+"/present-rewritten", "every normal exit of an update has the record absent or rewritten", "an update can succeed while the "+fam+" representation of the candidate keeps its old state", p.Where(w))
+				cx.decide(okP, "update-both", key+"/"+fam+"/present-rewritten", "every normal exit of an update has the record absent or rewritten", "an update can succeed while the "+fam+" representation of the candidate keeps its old state", puts[0].Where(w))
 			}
 			// no exit with zero writes
 			okW := true
 			for _, ex := range a.Exits() {
-				if !a.holdsAt(ex.State, a.eLit(put1), a.eLit(put2), a.eLit(del1)) {
+				if !a.holdsAt(ex.State, eAny(put1s, put2s, del1s)...) {
 					okW = false
 				}
 			}
-			cx.decide(okW, "update-both", key+"/unknown-fails", "no normal exit without a write: updating an unknown candidate fails", "updating an unknown candidate succeeds silently", put1.Where(w))
+			cx.decide(okW, "update-both", key+"/unknown-fails", "no normal exit without a write: updating an unknown candidate fails", "updating an unknown candidate succeeds silently", put1s[0].Where(w))
 			// D3 dispatch: every effect under a declared state
 			var lits []int32
 			for _, v := range consts {
@@ -684,23 +722,48 @@ func runC07(cx *CheckCtx) {
 			}
 			cx.decide(okD, "dispatch", key, "every effect happens under a declared node state", "an undeclared state value reaches an effect instead of failing", w.pos(m.Fn.Pos()))
 			// Offline removes, Online/Maintenance rewrite
-			okArm := a.holdsAt(del1.In, a.litEqC(state, consts["Offline"])) && a.holdsAt(put1.In, a.litEqC(state, consts["Online"]), a.litEqC(state, consts["Maintenance"]))
+			okArm := true
+			for _, d := range del1s {
+				if !a.holdsAt(d.In, a.litEqC(state, consts["Offline"])) {
+					okArm = false
+				}
+			}
+			for _, p := range put1s {
+				if !a.holdsAt(p.In, a.litEqC(state, consts["Online"]), a.litEqC(state, consts["Maintenance"])) {
+					okArm = false
+				}
+			}
 			cx.decide(okArm, "dispatch", key+"/arms", "Offline removes, Online/Maintenance rewrite", "the state dispatch maps a state to the wrong action", w.pos(m.Fn.Pos()))
 		}
-		na := notifyArgs(notif)
-		cx.decide(len(na) == 2 && na[0] == pk && na[1] == state, "update-notify", key+"/args", "UpdateStateSuccess(key, state)", "UpdateStateSuccess carries "+termList(na), notif.Where(w))
-		okN := !siteInLoop(notif)
-		for _, ex := range a.Exits() {
-			if !a.holdsAt(ex.State, a.eLit(notif)) {
+		okA, badA := true, ""
+		okN := true
+		for _, n := range notifs {
+			na := notifyArgs(n)
+			if !(len(na) == 2 && na[0] == pk && na[1] == state) {
+				okA, badA = false, termList(na)
+			}
+			if siteInLoop(n) {
 				okN = false
 			}
 		}
-		cx.decide(okN, "update-notify", key+"/once", "emitted once on every normal path", "an update can succeed without (or with several) UpdateStateSuccess", notif.Where(w))
+		cx.decide(okA, "update-notify", key+"/args", "UpdateStateSuccess(key, state)", "UpdateStateSuccess carries "+badA, notifs[0].Where(w))
+		for _, ex := range a.Exits() {
+			if !a.holdsAt(ex.State, eAny(notifs)...) {
+				okN = false
+			}
+			for i := range notifs {
+				for j := i + 1; j < len(notifs); j++ {
+					if !a.holdsAt(ex.State, -a.eLit(notifs[i]), -a.eLit(notifs[j])) {
+						okN = false
+					}
+				}
+			}
+		}
+		cx.decide(okN, "update-notify", key+"/once", "emitted once on every normal path", "an update can succeed without (or with several) UpdateStateSuccess", notifs[0].Where(w))
 		cx.count("update_methods", 1)
 	}
 	cx.floor("update_methods", 3)
 	// single emitters / writers over all methods
-	updFn := cx.locate(nmPkg, "updateCandidateState", "emits UpdateStateSuccess", func(f *ssa.Function) bool { return notifiesDirect(f, "UpdateStateSuccess") })
 	addFn := cx.locate(nmPkg, "addToNetmap", "emits AddPeerSuccess", func(f *ssa.Function) bool { return notifiesDirect(f, "AddPeerSuccess") })
 	if c := cx.contract("netmap"); c != nil {
 		for _, m := range c.Methods {
@@ -709,7 +772,9 @@ func runC07(cx *CheckCtx) {
 				skey := "netmap." + m.GoName + "/" + siteConstruct(a, s)
 				switch notifyName(s) {
 				case "UpdateStateSuccess":
-					cx.decide(updFn != nil && s.Ctx.fn == updFn, "single-emitter", skey, "emitted by the one state-update helper", "UpdateStateSuccess is emitted by a second function: a state change path exists that bypasses the update protocol", s.Where(w))
+					// stated per entry point, not per helper: the three update/remove entry points are decided above
+					// (arguments, exactly once, under the dispatch); no other method announces a state update
+					cx.decide(m.GoName == "UpdateState" || m.GoName == "UpdateStateIR" || m.GoName == "DeleteNode", "single-emitter", skey, "emitted on behalf of an update/remove entry point", "UpdateStateSuccess is emitted by "+m.GoName+", which is not one of the update/remove entry points: a state change is announced outside the update protocol", s.Where(w))
 				case "AddPeerSuccess":
 					cx.decide(addFn != nil && s.Ctx.fn == addFn, "single-emitter", skey, "emitted by the one add helper", "AddPeerSuccess is emitted by a second function: an admission path exists that bypasses the add protocol", s.Where(w))
 				case "AddNode":
